@@ -6,7 +6,10 @@ package main
 // number); the consumer records the order in which it received them. The observation is that
 // delivery trace plus GetNumConnToCollector after the clients are gone, the outcome of Stop, the
 // goroutines of pkg/collector left afterwards, the state of the listening port,
-// GetNumConnToCollector and GetNumRecordsReceived after Stop.
+// GetNumConnToCollector and GetNumRecordsReceived after Stop, and the number of deliveries whose
+// CONTENT is not what that (client, seq) sent (every data record carries (id<<32|seq, index)).
+// UDP exporters send in bursts (window 1..8 datagrams in flight per client, several clients at
+// once), data sets have 1..32 records.
 //
 // Completion criteria are logical (expected number of deliveries reached, counter reached its
 // expected value, no goroutine of the package left) under generous watchdogs; a watchdog that
@@ -32,6 +35,7 @@ import (
 	"time"
 
 	"github.com/vmware/go-ipfix/pkg/collector"
+	"github.com/vmware/go-ipfix/pkg/entities"
 	"github.com/vmware/go-ipfix/pkg/registry"
 )
 
@@ -112,6 +116,9 @@ func c12Msg(id int, seq int, kind byte, variant int) []byte {
 		binary.BigEndian.PutUint16(body[10:], 8)
 	case 'd':
 		nrec := 1 + variant%3
+		if variant >= 6 { // long data sets: decoding takes longer (bursts must not overwrite them)
+			nrec = 8 * (variant - 5)
+		}
 		body = make([]byte, 16*nrec)
 		for r := 0; r < nrec; r++ {
 			binary.BigEndian.PutUint64(body[16*r:], uint64(id)<<32|uint64(seq))
@@ -240,16 +247,58 @@ func collectorGoroutines() int {
 }
 
 type c12Trace struct {
-	mu    sync.Mutex
-	pairs [][2]int
-	per   map[int]int // deliveries per client
+	mu      sync.Mutex
+	pairs   [][2]int
+	per     map[int]int // deliveries per client
+	garbled int         // deliveries whose content is not what that (client, seq) sent
 }
 
-func (t *c12Trace) add(c, s int) {
+func (t *c12Trace) add(c, s int, bad bool) {
 	t.mu.Lock()
 	t.pairs = append(t.pairs, [2]int{c, s})
 	t.per[c]++
+	if bad {
+		t.garbled++
+	}
 	t.mu.Unlock()
+}
+
+// c12Garbled checks the content of a delivered message against what c12Msg builds for the
+// (client id, sequence number) in its header: a template set with the one template, or a data set
+// whose every record carries (id<<32|seq, record index) and whose record count fills the message
+// length. A message assembled from the bytes of two datagrams (or attributed to the wrong client)
+// fails this check even when its header looks fine.
+func c12Garbled(m *entities.Message) bool {
+	set := m.GetSet()
+	if set == nil {
+		return true
+	}
+	id, seq := uint64(m.GetObsDomainID()), uint64(m.GetSequenceNum())
+	recs := set.GetRecords()
+	switch set.GetSetType() {
+	case entities.Template:
+		if len(recs) != 1 || m.GetMessageLen() != 32 {
+			return true
+		}
+		els := recs[0].GetOrderedElementList()
+		return recs[0].GetTemplateID() != 256 || len(els) != 2 ||
+			els[0].GetInfoElement().ElementId != 1 || els[1].GetInfoElement().ElementId != 2
+	case entities.Data:
+		if len(recs) == 0 || int(m.GetMessageLen()) != 20+16*len(recs) {
+			return true
+		}
+		for r, rec := range recs {
+			els := rec.GetOrderedElementList()
+			if len(els) != 2 {
+				return true
+			}
+			if els[0].GetUnsigned64Value() != id<<32|seq || els[1].GetUnsigned64Value() != uint64(r) {
+				return true
+			}
+		}
+		return false
+	}
+	return true
 }
 func (t *c12Trace) count(c int) int {
 	t.mu.Lock()
@@ -301,7 +350,7 @@ func c12One(c c12Case, rng *Rng) string {
 		for {
 			select {
 			case m := <-ch:
-				tr.add(int(m.GetObsDomainID()), int(m.GetSequenceNum()))
+				tr.add(int(m.GetObsDomainID()), int(m.GetSequenceNum()), c12Garbled(m))
 				perturb(crng, level)
 			case <-quit:
 				return
@@ -363,8 +412,18 @@ func c12One(c c12Case, rng *Rng) string {
 			defer raw.Close()
 			delivered := 0 // how many of this client's messages must have reached the consumer
 			exp := expected[id]
+			// udp: burst window = datagrams of this client in flight before it waits for the
+			// consumer (1 = paced). The sum over all clients stays far below what the socket
+			// buffer holds, so the kernel never drops in a quiet run.
+			window := []int{1, 2, 4, 8}[r.Intn(4)]
+			if lim := 48 / len(c.clients); window > lim {
+				window = lim
+			}
+			if window < 1 {
+				window = 1
+			}
 			for seq := 0; seq < len(cl.msgs); seq++ {
-				b := c12Msg(id, seq, cl.msgs[seq], int(r.U64()%6))
+				b := c12Msg(id, seq, cl.msgs[seq], int(r.U64()%10))
 				conn.SetWriteDeadline(time.Now().Add(20 * time.Second))
 				if c.proto != "udp" && r.Intn(3) == 0 && len(b) > 4 {
 					cut := 1 + r.Intn(len(b)-1)
@@ -381,8 +440,8 @@ func c12One(c c12Case, rng *Rng) string {
 				if delivered < len(exp) && exp[delivered] == seq {
 					delivered++
 					if c.proto == "udp" && (c.mode == "quiet" || r.Intn(2) == 0) {
-						// pace: one datagram of this client in flight, so that the kernel never drops
-						want := delivered
+						// pace: at most `window` datagrams of this client in flight, so that the kernel never drops
+						want := delivered - window + 1
 						select {
 						case <-release:
 						default:
@@ -491,8 +550,11 @@ func c12One(c c12Case, rng *Rng) string {
 		fmt.Fprintf(&sb, " %d %d", p[0], p[1])
 	}
 	tr.mu.Unlock()
-	fmt.Fprintf(&sb, " ; conns %s ; stop %s ; left %d ; port %s ; conns2 %d ; numrec %d",
-		conns, stop, left, port, cp.GetNumConnToCollector(), cp.GetNumRecordsReceived())
+	tr.mu.Lock()
+	garbled := tr.garbled
+	tr.mu.Unlock()
+	fmt.Fprintf(&sb, " ; conns %s ; stop %s ; left %d ; port %s ; conns2 %d ; numrec %d ; garbled %d",
+		conns, stop, left, port, cp.GetNumConnToCollector(), cp.GetNumRecordsReceived(), garbled)
 	return sb.String()
 }
 
@@ -529,7 +591,11 @@ func runC12(env *Env) {
 				}
 			}
 			c := parseC12(toks)
-			env.Emit("C12 "+c.String(), c12One(c, NewRng(env.Rng.U64())))
+			// the property is schedule dependent: a replayed case is run several times, with
+			// different timing / burst windows / write splitting drawn from the PRNG
+			for rep := 0; rep < 6; rep++ {
+				env.Emit("C12 "+c.String(), c12One(c, NewRng(env.Rng.U64())))
+			}
 		}
 		return
 	}
